@@ -124,7 +124,8 @@ def run(rep):
                     h = names.handler(case, nm)
                     stat["capture_handler_checked"] += 1
                     want = RESULT_OF.get(h["name"]) if h else None
-                    got = [f["result"] for f in funcs.get(nm, [])]
+                    # equal / compare with one argument generate the curried form func(T) bool / func(T) int
+                    got = [f["result"].split(") ")[-1] if f["result"].startswith("func(") else f["result"] for f in funcs.get(nm, [])]
                     if want is None or want not in got:
                         spec = "call %s must be handled by the plugin with the longest matching prefix (%s), generated: %s" % (
                             nm, h and h["name"], funcs.get(nm))
